@@ -348,6 +348,9 @@ def judge_chain(ctx, rng, j):
     else:
         rel = 'unrelated'
         other = build(ctx, rng, rng.choice((2, 3)), False)
+        if other.seed == c.seed and c.seed:
+            # two draws of the same all-zero seed ARE the same chain
+            other = build(ctx, rng, other.n, False, seed=c.seed + b'\x01')
     ctx.tab('other_chain_seed', rel)
     case = {'kind': 'chain', 'n': n, 'seed': c.seed, 'seeds': c.seeds,
             'refund_hops': sorted(c.refund_seeds), 'other_seed': other.seed,
